@@ -21,7 +21,7 @@ CLAUSES = {
 }
 MANIFEST = {
     "text": "TLC model-checks whole runs of the Process state machine (Start/Step/Raise/Finish with the look-ahead state and its pop) with "
-            "exact rationals and free fluxes (all balances, lengths, time grid as invariants; five named wrong designs must be caught); every "
+            "exact rationals and free fluxes (all balances, lengths, time grid as invariants; four named wrong designs must be caught); every "
             "step of recorded runs of the four real process models is validated by TLC against the same step relations. tlapm proves for every N, arithmetic and environment that a returned run of the same specification has series of exactly N entries starting at the stated state on the grid k x step.",
     "note": "Scenarios sampled. Trusted: TLC, Java overrides, recorder (reads only public ProcessModel fields).",
     "technique": "TLA+ state machine + TLC (exact rationals) + TLC trace validation of recorded process runs + TLAPS proofs about the same specification module (tlapm)",
